@@ -4,6 +4,7 @@ typedef struct pstr { const char *ptr; size_t len; } pstr;      /* std::string a
 typedef struct vec_pstr { pstr *ptr; size_t len; size_t cap; const void *src; _Bool uniq; _Bool sorted; } vec_pstr;
 static inline size_t vec_pstr_size(const vec_pstr *v) { return v->len; }
 static inline _Bool vec_pstr_empty(const vec_pstr *v) { return v->len == 0; }
+static inline void vec_pstr_clear(vec_pstr *v) { v->len = 0; }
 static inline pstr *vec_pstr_at(const vec_pstr *v, size_t i) { return &v->ptr[i]; }
 struct plist { const void *src; };                  /* std::vector<StringRef> handed out by a BuildValue */
 unsigned g_diffs; const void *g_diff_a, *g_diff_b, *g_diff_out; char g_prior_list_marker;
